@@ -46,6 +46,7 @@ struct Actor {
     virtual bool ready() = 0;            // may act now
     virtual long long deadline() = 0;    // absolute virtual ns at which it becomes ready, or -1
     virtual void step() = 0;             // perform one action (runs under the baton)
+    virtual bool urgent() { return false; } // when ready, act before anything else is scheduled (fault injectors)
 };
 
 struct Stats {
